@@ -176,6 +176,9 @@ def _r_qu(ck, ctx, world, table, rules, infos) -> None:
                         else:
                             ck.bad('R-QU', apply_r.node, f'apply raises {exc.name} for a declared combination: reduce() would raise', instance=inst, semantic=True)
                         continue
+                    except NonLinear as exc:
+                        ck.bad('R-QU', apply_r.node, f'{rule.name} does not combine the parameters of the pair element-wise: {exc}', instance=inst, semantic=True)
+                        continue
                     except Incomplete as exc:
                         ck.incomplete('R-QU', apply_r.node, f'{exc.site}: {exc.why}', instance=inst)
                         continue
